@@ -582,9 +582,52 @@ FIXED_HISTORIES = [
 ]
 
 
+def callable_family(ctx):
+    """profiles whose value checks are functions, some of which raise on some values (the documented int(v) > 0 style):
+    a value is valid iff SOME registered profile accepts it - in every registration order, for validate() and
+    validateWithProfile(), and whatever the default profiles are.  Search only."""
+    import itertools
+    import cssutils
+    from cssutils.profiles import Profiles
+    from harness import impl
+
+    def positive(v):
+        return int(v) > 0           # raises ValueError on a non-number
+
+    def never(v):
+        return False
+
+    def boom(v):
+        raise RuntimeError('checker failed')
+    specs = {'loose': {'x-n': r'[a-z]+|-?[0-9]+'}, 'strict': {'x-n': positive}, 'never': {'x-n': never}, 'boom': {'x-n': boom}, 'other': {'x-m': '1'}}
+    truth = {'loose': lambda v: v.isalpha() or v.lstrip('-').isdigit() and bool(v.lstrip('-')), 'strict': lambda v: v.lstrip('-').isdigit() and int(v) > 0,
+             'never': lambda v: False, 'boom': lambda v: False, 'other': lambda v: False}
+    values = ['5', '-5', 'abc', 'ABC', '0', '1x']
+    for names in itertools.permutations(['loose', 'strict', 'never', 'boom', 'other'], 3):
+        impl.reset(raise_exceptions=False)
+        P = Profiles(log=cssutils.log)
+        for n_ in names:
+            P.addProfile(n_, specs[n_])
+        for dp in (None, [names[0]], [names[-1]]):
+            P.defaultProfiles = dp
+            for v in values:
+                case = {'family': 'callable-profiles', 'order': list(names), 'defaultProfiles': dp, 'value': v}
+                ctx.case(('callable', names, tuple(dp or ()), v))
+                want = any(truth[n_](v) for n_ in names if 'x-n' in specs[n_])
+                try:
+                    got = (P.validate('x-n', v), P.validateWithProfile('x-n', v)[0])
+                except Exception as e:  # noqa
+                    ctx.violation('raises', case, '%s: %s' % (type(e).__name__, e), KNOWN_PRED)
+                    continue
+                if got != (want, want):
+                    ctx.violation('valid-iff', case, '(validate, validateWithProfile[0]) = %r, some registered profile accepts: %r' % (got, want), KNOWN_PRED)
+    impl.reset()
+
+
 def run(ctx):
     from harness import impl
     quick = ctx.tier == 'quick'
+    callable_family(ctx)
     nh, maxops = (220, 25) if quick else (2500, 25)
     rng = ctx.rng
     builtins = builtin_specs()
